@@ -118,6 +118,9 @@ def run(report, p):
             oks = []
             for o in pr.origins(arg, cf):
                 full = pr.inline(o, depth=2, calls=False)
+                if any(s2[0] == "param" for s2 in subterms(full)) and cf.qual not in [c.qual for c in cmds.values()]:
+                    # the traversal sits in a helper: follow the helper's parameters to its call sites
+                    full = pr.inline(pr.expand_params(full, depth=2, within=shipped_reach), depth=2, calls=False)
                 for a in alts(full):
                     if is_call(a, "MHLIgnoreSpec.get_path_spec") and a[5] is not None:
                         for s in alts(a[5]):
